@@ -10,7 +10,7 @@ import gc
 import pickle
 
 from sim.core import Outcome, dg
-from sim.simthreads import SimLock, SimThreads, yield_now
+from sim.simthreads import SimLock, SimThreads, cur, yield_now
 
 META = {
     "level": "exploration",
@@ -18,13 +18,13 @@ META = {
                "thorough": {"seconds": 900, "runs": 10**9}},
     "rule": ("one evaluation = up to 3 lock families (generated or explicit tokens) x 1-4 pickled copies "
              "(pickle / cloudpickle / deepcopy, 1-3 round trips) x 2-4 simulated threads each running a "
-             "tape-generated program of critical sections (blocking / non-blocking / timed acquire, release "
+             "tape-generated program of critical sections (blocking / non-blocking / timed / zero-timeout acquire, release "
              "through any copy, pickling while held, dropping copies + gc) under a simulated interleaving; "
              "distinct = distinct (program digest, interleaving digest); non-trivial = some acquire found "
              "the family held by another thread"),
     "abstract_measure": "distinct (holder per family) model states",
     "gates": {"quick": {"lock_contended": 1000, "nonblocking_refused": 500, "cross_family_ok": 500,
-                        "copied_while_held": 300},
+                        "copied_while_held": 300, "zero_timeout_on_held_lock": 300},
               "thorough": {"lock_contended": 1000}},
     "anchors": ["dask/utils.py"],
     "real": ["dask.utils.SerializableLock (registry, __getstate__/__setstate__, acquire/release/locked)",
@@ -107,7 +107,7 @@ def run_one(tape, cfg):
                         "fam": tape.draw(nfam, "fam"),
                         "sel": tape.draw(8, "sel"),
                         "mode": tape.weighted([(3, "block"), (2, "nonblock"), (1, "timeout"),
-                                               (1, "with")], "mode"),
+                                               (1, "with"), (1, "timeout0")], "mode"),
                         "inner": [tape.weighted([(2, "yield"), (2, "locked"), (2, "cross"), (1, "copy")],
                                                 "inner") for _ in range(tape.draw(4, "ninner"))],
                         "rsel": tape.draw(8, "rsel"),
@@ -165,6 +165,18 @@ def run_one(tape, cfg):
                         ok = True
                     elif mode == "nonblock":
                         ok = c.acquire(False)
+                    elif mode == "timeout0":
+                        # a zero timeout is a try-lock: it answers at once, whoever holds the lock
+                        before = getattr(cur(), "nblocks", 0)
+                        how = op["sel"] % 3
+                        ok = (c.acquire(timeout=0) if how == 0 else
+                              c.acquire(True, 0) if how == 1 else c.acquire(True, 0.0))
+                        if holder[f] is not None:
+                            stats["timeout0_held"] = stats.get("timeout0_held", 0) + 1
+                        if getattr(cur(), "nblocks", 0) != before:
+                            bad("zero_timeout_blocked", f"thread {tid}: acquire with a zero timeout on family "
+                                                        f"{f} waited for the holder instead of returning")
+                            return
                     else:
                         ok = c.acquire(timeout=0.01) if op["sel"] % 2 else c.acquire(True, 0.01)
                     if not ok:
@@ -240,6 +252,7 @@ def run_one(tape, cfg):
         out.probe("nonblocking_refused", stats["refused"])
         out.probe("cross_family_ok", stats["cross_ok"])
         out.probe("copied_while_held", stats["copied_held"])
+        out.probe("zero_timeout_on_held_lock", stats.get("timeout0_held", 0))
         out.nontrivial = sched.probes.get("lock_contended", 0) > 0 or stats["refused"] > 0
         out.sim_time = float(sched.steps)
         out.abstract = tuple(abstract)
